@@ -9,7 +9,7 @@ use srtla_send::sender::verif_hooks::process_uplink_packet_fut as process_uplink
 use crate::shellutil::*;
 use crate::util::*;
 
-/// Longest datagram drawn.  Build-time knob (`VERIF_C09_MAXD`, default 12; the thorough tier uses 24 so that the
+/// Longest datagram drawn.  Build-time knob (`VERIF_C09_MAXD`, default 12; the registered checks set 24 so that the
 /// 20-byte SRT ACK layout is inside the bound).  The smallvec model capacity (`VERIF_SV_CAP`) must be >= MAXD.
 const MAXD: usize = parse_usize(option_env!("VERIF_C09_MAXD"), 12);
 
@@ -78,6 +78,7 @@ fn uplink_datagram<const TY: u16>() {
     set_clock(now);
     let mut conn = any_conn(1, SYM_INT);
     conn.rtt.waiting_for_keepalive_response = kani::any();
+    conn.rtt.last_keepalive_sent_ms = any_time(); // any probe history, independent of the waiting flag (seed C09b)
     // representation invariant: a warming link has collected fewer probes than the (small) promotion threshold -
     // reaching it promotes the link to Live; a pre-state with billions of probes is unreachable
     if let LinkPhase::Warming { rtt_probes, .. } = conn.vh_phase() {
